@@ -17,7 +17,7 @@ type pollQueue struct {
 
 func newPollQueue() *pollQueue {
 	return &pollQueue{
-		ready: make(chan struct{}),
+		ready: make(chan struct{}, 1),
 	}
 }
 
@@ -31,12 +31,21 @@ func (pq *pollQueue) poll(pollTimeout time.Duration) []*parser.Packet {
 	}
 	verifhook.Point("pollQueue.poll:before-wait")
 
-	select {
-	case <-pq.ready:
-		packets = pq.get()
-	case <-time.After(pollTimeout):
+	// `ready` holds at most one pending signal, so a packet added between
+	// the check above and the wait below is not missed. A signal can be stale
+	// (its packets were already taken), in that case keep waiting.
+	timeout := time.After(pollTimeout)
+	for {
+		select {
+		case <-pq.ready:
+			packets = pq.get()
+			if len(packets) > 0 {
+				return packets
+			}
+		case <-timeout:
+			return pq.get()
+		}
 	}
-	return packets
 }
 
 // add a packet to the queue and signal the other goroutine (if any).
